@@ -122,10 +122,20 @@ func (r *Registry) newScope() *MethodScope {
 // record. Variables of one method whose field names would be equal (id
 // and Id) get a number appended.
 func (r *Registry) ResolveShadowing(fieldName func(string) string) {
-	// Type parameters first: the methods reserve their final names.
+	// Type parameters first: the methods reserve their final names. A name
+	// generated for a blank type parameter must not hide a type the
+	// methods write without qualifier (_ io.Reader next to a type reader).
+	typeNames := make(map[string]bool)
+	for _, scope := range r.scopes {
+		if !scope.typeParams {
+			for _, v := range scope.vars {
+				scope.unqualifiedTypeNames(v.vr.Type(), typeNames, map[types.Type]bool{})
+			}
+		}
+	}
 	for _, scope := range r.scopes {
 		if scope.typeParams {
-			scope.resolveTypeParamShadowing()
+			scope.resolveTypeParamShadowing(typeNames)
 		}
 	}
 	for _, scope := range r.scopes {
